@@ -125,17 +125,16 @@ func scRateLimit(r *vh.Rand, d dims, variant int) (dims, []string) {
 	return d, ops
 }
 
-// no quorum: requests must end (Dropped / Timeout / refused), then complete once the quorum is back
+// no quorum: requests must end (Dropped / Timeout / refused), then complete once the quorum is
+// back. First the majority is stopped while the remaining host leads (its membership change is
+// appended and can never commit: only the clock of the request table ends it), then - after a
+// fault-free period - a follower's host is cut off.
 func scNoQuorum(r *vh.Rand, d dims, variant int) (dims, []string) {
 	d.q = false
 	d.rl = 0
 	n := d.n
 	keep := 1 + r.Intn(n)
-	lead := keep
-	if variant%2 == 1 {
-		lead = other(r, n, keep)
-	}
-	ops := []string{"P 1 1 16", fmt.Sprintf("XFER %d", lead)}
+	ops := []string{"P 1 1 16", fmt.Sprintf("XFER %d", keep)}
 	var stopped []int
 	need := n/2 + 1
 	for h := 1; h <= n && len(stopped) < need; h++ {
@@ -143,25 +142,23 @@ func scNoQuorum(r *vh.Rand, d dims, variant int) (dims, []string) {
 			stopped = append(stopped, h)
 		}
 	}
-	if variant%3 == 2 {
-		// the minority side of a partition instead of stopped hosts
-		ops = append(ops, fmt.Sprintf("PART %d", keep))
-	} else {
-		for _, h := range stopped {
-			ops = append(ops, fmt.Sprintf("STOP %d", h))
-		}
+	for _, h := range stopped {
+		ops = append(ops, fmt.Sprintf("STOP %d", h))
 	}
 	nv := n + 1
 	ops = append(ops, fmt.Sprintf("P %d 1 16", keep), fmt.Sprintf("R %d", keep), fmt.Sprintf("ANV %d %d", keep, nv), fmt.Sprintf("SNAP %d", keep), fmt.Sprintf("BG %d 3", keep))
-	if variant%3 == 2 {
-		ops = append(ops, "HEAL")
-	} else {
-		for _, h := range stopped {
-			ops = append(ops, fmt.Sprintf("START %d", h))
-		}
+	for _, h := range stopped {
+		ops = append(ops, fmt.Sprintf("START %d", h))
 	}
 	o := other(r, n, keep)
 	ops = append(ops, "FAIR", fmt.Sprintf("P %d 1 16", keep), fmt.Sprintf("R %d", o), fmt.Sprintf("ANV %d %d", o, nv), fmt.Sprintf("P %d 1 16", o), fmt.Sprintf("R %d", nv))
+	// the minority side of a partition
+	cut := other(r, n, o)
+	ops = append(ops, fmt.Sprintf("XFER %d", o), fmt.Sprintf("PART %d", cut), fmt.Sprintf("P %d 1 16", cut), fmt.Sprintf("ANV %d %d", cut, nv+1), fmt.Sprintf("R %d", cut))
+	if variant%2 == 0 {
+		ops = append(ops, fmt.Sprintf("P %d 1 16", o))
+	}
+	ops = append(ops, "HEAL", "FAIR", fmt.Sprintf("R %d", cut), fmt.Sprintf("P %d 1 16", cut))
 	return d, ops
 }
 
